@@ -1141,9 +1141,11 @@ static int ec_at(char *loc, char *cmd, char *arg, char *txt)
 		sbuf_free(r);
 		return ret;
 	}
+	buf = uc_dup(buf);	/* the commands may rewrite the register */
 	depth++;
 	ret = ex_command(buf);
 	depth--;
+	free(buf);
 	return ret;
 }
 
